@@ -186,7 +186,22 @@ class CsCheck:
                 if ign != (opt and not na):
                     self.fail("null-ignore differs|%s|%s" % ("collection" if coll else "plain", "should ignore null" if (opt and not na) else "should write null"), {"structure": name, "property": pn, "attrs": cp["attrs"]})
                 e = self.cstype(t)
-                if e is None:
+                rt_ = t
+                if rt_["kind"] == "or":
+                    nn = [i for i in rt_["items"] if not is_null(i)]
+                    rt_ = nn[0] if len(nn) == 1 else rt_
+                if e is None and rt_["kind"] == "map":
+                    # maps: key type always judged; value type when it is not a union (unions of
+                    # structures get a generated wrapper class as map value)
+                    self.counts["map_types"] = self.counts.get("map_types", 0) + 1
+                    kexp = self.cstype(rt_["key"])
+                    vexp = self.cstype(rt_["value"]) if rt_["value"]["kind"] != "or" else None
+                    m_ = re.match(r"ImmutableDictionary<(.+?), (.+)>$", core)
+                    if not m_:
+                        self.fail("C# type differs from the mapped metamodel type", {"structure": name, "property": pn, "got": core, "expected": "ImmutableDictionary<%s, ...>" % kexp})
+                    elif m_.group(1) != kexp or (vexp is not None and self.lit_sub(m_.group(2)) != vexp):
+                        self.fail("C# type differs from the mapped metamodel type|map", {"structure": name, "property": pn, "got": core, "expected": "ImmutableDictionary<%s, %s>" % (kexp, vexp or "...")})
+                elif e is None:
                     self.counts["skipped_types"] += 1
                 else:
                     core2 = self.lit_sub(core)
